@@ -1051,7 +1051,8 @@ func (self *Fork) doChunks(state MetadataState, getBindings func() MarshalerMap)
 			self.storageLock.Lock()
 			defer self.storageLock.Unlock()
 			lockAquired <- struct{}{}
-			self.cleanSplitTemp(nil)
+			// Keep what earlier passes (before a restart) already recorded.
+			self.cleanSplitTemp(self.getPartialKillReport())
 		}()
 		<-lockAquired
 	}
